@@ -96,3 +96,101 @@ Theorem C06_request_sizes_bounded :
     all_le B lg -> fst (read_loopI fuel c m s lg) = read_loop fuel c m s /\ all_le B (snd (read_loopI fuel c m s lg)).
 Proof. exact request_sizes_bounded. Qed.
 Print Assumptions C06_request_sizes_bounded.
+
+(* ============================================================================================ *)
+(* Streams with permessage-deflate messages (reader negotiated compression): the limit counts  *)
+(* WIRE payload bytes, i.e. the compressed size.  Proofs are in Proofs/LimitZ.v.                *)
+(* ============================================================================================ *)
+Require Import WS.Proofs.ReaderZ1 WS.Proofs.ReaderZ2 WS.Proofs.ReaderZ3 WS.Proofs.LimitZ.
+
+(* Completeness + history independence, compressed or not: same situation as
+   C06_next_message_within_limit_is_read, frames may carry RSV1 when negotiated.  If the next
+   message's wire payload [d] is <= L it is read in full and the result is
+   [out_ofZ inflate (ty, cz, d)]: inflate (d ++ 00 00 ff ff 01 00 00 ff ff) when its first frame
+   has RSV1, [d] itself otherwise.  The final state does not depend on [inflate]. *)
+Theorem C06Z_next_message_within_limit_is_read :
+  forall L k c extra, custom_handlers c = false -> extra <> [] \/ k = EEOF ->
+  forall fs s w more0 pings0 fs1 ty cz d p a,
+    rinvL L k s -> rem s = blen w -> pending (br s) = w ++ encode_frames fs ++ extra ->
+    Forall wf_frame fs -> seq_okZ (server c) (negotiated c) (negb (rfin s)) fs = true ->
+    blen (encode_frames fs) < 2^63 ->
+    msg_tail (rfin s) fs = (more0, pings0, fs1) -> L = 0 \/ blen more0 <= L ->
+    first_msgZ fs1 = Some (ty, cz, d, p, a) -> L = 0 \/ blen d <= L ->
+    exists s', (forall inflate, read_message inflate c s = (out_ofZ inflate (ty, cz, d), s')) /\
+      rinvL_end L k s' /\ rem s' = 0 /\ rfin s' = true /\
+      pending (br s') = encode_frames a ++ extra /\ wlog s' = wlog s ++ map WPong (pings0 ++ p).
+Proof. exact abandoned_then_next_message_readZ. Qed.
+Print Assumptions C06Z_next_message_within_limit_is_read.
+
+(* Soundness, compressed or not, from any point of an abandoned previous message: a message whose
+   wire payload exceeds L is never read in full.  ErrReadLimit; a compressed message delivers
+   nothing ([] - and the result is the same for every [inflate]: nothing reaches the flate
+   reader), an uncompressed one the prefix d' (<= L bytes); 1009 close queued; permanent.  The
+   reader stops right after the header of the frame [fj] at which the running wire total crosses
+   L (C06Z_crossing_point): all [plen fj] payload bytes of fj are still unread. *)
+Theorem C06Z_over_limit_never_complete :
+  forall L k c extra, custom_handlers c = false -> extra <> [] \/ k = EEOF ->
+  forall fs s w more0 pings0 fs1 ty cz d p a,
+    0 < L -> rinvL L k s -> rem s = blen w -> pending (br s) = w ++ encode_frames fs ++ extra ->
+    Forall wf_frame fs -> seq_okZ (server c) (negotiated c) (negb (rfin s)) fs = true ->
+    blen (encode_frames fs) < 2^63 ->
+    msg_tail (rfin s) fs = (more0, pings0, fs1) -> blen more0 <= L ->
+    first_msgZ fs1 = Some (ty, cz, d, p, a) -> L < blen d ->
+    exists ty' d' p' x y fj rj s',
+      (forall inflate,
+         read_message inflate c s = (RMsg ty' (if cz then [] else d') (Some RReadLimit), s')) /\
+      blen d' <= L /\ d = d' ++ x /\ p = p' ++ y /\ (ty' = ty \/ (ty' = 0 /\ d' = [])) /\
+      wlog s' = wlog s ++ map WPong (pings0 ++ p') ++ [WCloseTooBig] /\
+      rerror s' = Some RReadLimit /\ closesent s' = true /\ outoffuel s' = false /\
+      first_cross L fs1 = Some (fj, rj) /\ rem s' = plen fj /\
+      pending (br s') = wire_payload fj ++ encode_frames rj ++ extra /\
+      (forall inflate ops, exists rs s'', run_ops inflate c s' ops = (rs, s'') /\
+                                  frozen s' s'' /\ Forall is_failure rs).
+Proof. exact over_limit_never_completeZ_general. Qed.
+Print Assumptions C06Z_over_limit_never_complete.
+
+(* the frame at which the reader stops: a data / continuation frame f of the first message such
+   that the wire payload of the message's frames before it ([dpay pre], control frames do not
+   count) is <= L and with f's declared length it is > L *)
+Theorem C06Z_crossing_point :
+  forall L fs f r, first_cross L fs = Some (f, r) ->
+    exists pre, fs = pre ++ f :: r /\ is_control (opcode f) = false /\
+      0 < L /\ blen (dpay pre) <= L /\ L < blen (dpay pre) + plen f /\
+      exists ty cz, first_limZ L fs = Some (ty, cz, dpay pre, pings_of pre, None).
+Proof. exact first_cross_spec. Qed.
+Print Assumptions C06Z_crossing_point.
+
+(* with a limit L > 0 one ReadMessage never collects more than L wire payload bytes of a message
+   (so never hands more than L bytes to the flate reader) *)
+Theorem C06Z_wire_bytes_at_most_limit :
+  forall L k c extra, custom_handlers c = false -> extra <> [] \/ k = EEOF ->
+  forall fs s w more0 pings0 fs1 ty cz d p a,
+    0 < L -> rinvL L k s -> rem s = blen w -> pending (br s) = w ++ encode_frames fs ++ extra ->
+    Forall wf_frame fs -> seq_okZ (server c) (negotiated c) (negb (rfin s)) fs = true ->
+    blen (encode_frames fs) < 2^63 ->
+    tail_lim L 0 (rfin s) fs = (more0, pings0, Some fs1) ->
+    first_limZ L fs1 = Some (ty, cz, d, p, a) ->
+    exists s', (forall inflate, read_message inflate c s = (lim_outZ inflate ty cz d a, s')) /\
+      blen d <= L.
+Proof. exact delivered_at_most_limitZ. Qed.
+Print Assumptions C06Z_wire_bytes_at_most_limit.
+
+(* the per-frame statement for frames that may carry RSV1 (first frame of a compressed message):
+   same three outcomes; when accepted the RSV1 flag is what [rdecomp] records *)
+Theorem C06Z_crossing_frame_refused_before_payload :
+  forall L k c s f rest,
+    rinvL L k s -> wf_frame f -> frame_accZ (server c) (negotiated c) (negb (rfin s)) f = true ->
+    is_control (opcode f) = false -> rem s = 0 -> pending (br s) = encode_frame f ++ rest ->
+    let rl := (if is_data_op (opcode f) then 0 else rlen s) + plen f in
+    (rl < 2^63 -> L = 0 \/ rl <= L ->
+     exists s', advance_frame c s = (AFrame (opcode f), s') /\ rinvL L k s' /\ rem s' = plen f /\
+       rfin s' = fin f /\ rlen s' = rl /\ pending (br s') = wire_payload f ++ rest /\
+       unmask c s' (wire_payload f) = payload f /\ rdecomp s' = (rsv f =? 4) /\ wlog s' = wlog s) /\
+    (rl < 2^63 -> 0 < L -> L < rl ->
+     exists s', advance_frame c s = (AErr RReadLimit, s') /\ wlog s' = wlog s ++ [WCloseTooBig] /\
+       closesent s' = true /\ pending (br s') = wire_payload f ++ rest /\ rlen s' = rl /\ rem s' = plen f) /\
+    (2^63 <= rl ->
+     exists s', advance_frame c s = (AErr RReadLimit, s') /\ wlog s' = wlog s ++ [WCloseTooBig] /\ closesent s' = true /\
+       pending (br s') = wire_payload f ++ rest /\ rem s' = plen f).
+Proof. exact data_frame_step_limitZ. Qed.
+Print Assumptions C06Z_crossing_frame_refused_before_payload.
